@@ -89,13 +89,15 @@ func c14Scenario(api []int, pkts []int) *concScenario {
 						} else {
 							ra = raFrame(rtr2MAC, router2, 0x00, 600, refnet.NDPOption(1, rtr2MAC))
 						}
-						f, err := s.Parse(ra)
+						rx := append([]byte(nil), ra...) // the receive buffer: overwritten once the packet loop is done with it
+						f, err := s.Parse(rx)
 						if err != nil {
 							x.fail("setup", "RA rejected by Parse: "+err.Error())
 							return
 						}
 						h.ProcessPacket(f)
 						s.Notify(f)
+						scribble(rx)
 						log.add(huntEvent{kind: "deliver", op: p, t: vsched.NowNanos(), seq: conn.Len()})
 					}
 				},
@@ -415,6 +417,7 @@ func c14Options() []raOpt {
 type c14Replay struct {
 	Kind  string `json:"kind"`
 	Frame string `json:"frame"`
+	Pre   string `json:"pre,omitempty"` // ra2: the advertisement delivered before Frame
 }
 
 type c14State struct{ s *packet.Session }
@@ -446,8 +449,46 @@ func c14Learn(c *core.Ctx, st *c14State, opts []raOpt, flags byte, lifetime uint
 	c.Distinct(frame)
 }
 
+// c14LearnPair delivers two advertisements of one router (the second one from ethernet source srcMAC) to one handler.
+func c14LearnPair(c *core.Ctx, st *c14State, first, second []raOpt, srcMAC []byte) {
+	c.Count("evaluations", 1)
+	build := func(opts []raOpt, src []byte, flags byte, lifetime uint16) ([]byte, string) {
+		var raw []byte
+		var names []string
+		for _, o := range opts {
+			raw = append(raw, o.raw...)
+			names = append(names, o.name)
+		}
+		body := refnet.RA(64, flags, lifetime, 0, 0, raw)
+		return refnet.Eth([]byte{0x33, 0x33, 0, 0, 0, 1}, src, 0x86dd, refnet.IP6(env.RouterLLA, mc6, 58, 255, refnet.ICMP6(env.RouterLLA, mc6, 134, 0, body), -1)), strings.Join(names, "+")
+	}
+	f1, n1 := build(first, env.RouterMAC, 0xc0, 1800)
+	f2, n2 := build(second, srcMAC, 0x40, 600)
+	rp := c14Replay{Kind: "ra2", Frame: hex.EncodeToString(f2), Pre: hex.EncodeToString(f1)}
+	if differential {
+		scribbleOff = false
+		a := c14CheckSeq(st, [][]byte{f1}, f2)
+		scribbleOff = true
+		b := c14CheckSeq(st, [][]byte{f1}, f2)
+		scribbleOff = false
+		if a != b {
+			c.Violate("alias|router-learning", fmt.Sprintf("RA [%s] then RA [%s] from %x: the router learned with scribbled receive buffers differs from the one learned with untouched buffers: {%s} vs {%s}", n1, n2, srcMAC, a, b), rp)
+		}
+		c.Distinct(append(append([]byte(nil), f1...), f2...))
+		return
+	}
+	if what := c14CheckSeq(st, [][]byte{f1}, f2); what != "" {
+		c.Violate("router-learning|second-ra-"+firstWords(what, 2), fmt.Sprintf("RA [%s] then RA [%s] from ethernet source %x: %s", n1, n2, srcMAC, what), rp)
+	}
+	c.Distinct(append(append([]byte(nil), f1...), f2...))
+}
+
 // c14Check returns a description of the first mismatch ("" if the learned router equals the reference decode).
-func c14Check(st *c14State, frame []byte) (what string) {
+func c14Check(st *c14State, frame []byte) (what string) { return c14CheckSeq(st, nil, frame) }
+
+// c14CheckSeq delivers the advertisements pre (each one examined by the handler) and then frame, and compares the
+// learned router with the reference decode of frame: the table records what the LAST advertisement said.
+func c14CheckSeq(st *c14State, pre [][]byte, frame []byte) (what string) {
 	defer func() {
 		if e := recover(); e != nil {
 			what = fmt.Sprintf("panic: %v @%s", e, panicSite())
@@ -459,6 +500,16 @@ func c14Check(st *c14State, frame []byte) (what string) {
 	}
 	icmp.VerifReset()
 	h, _ := icmp.New6(st.s)
+	for _, pf := range pre {
+		pbuf := append([]byte(nil), pf...)
+		if f, err := st.s.Parse(pbuf); err == nil {
+			h.ProcessPacket(f)
+		}
+		if !scribbleOff {
+			scribble(pbuf)
+		}
+		icmp.VerifReset() // the handler examines one advertisement in four: make it examine the next one too
+	}
 	buf := append([]byte(nil), frame...)
 	f, err := st.s.Parse(buf)
 	if err != nil {
@@ -535,6 +586,8 @@ func c14Check(st *c14State, frame []byte) (what string) {
 	wantMAC := []byte(env.RouterMAC)
 	if slla != nil {
 		wantMAC = slla
+	} else if pre != nil {
+		wantMAC = r.Addr.MAC // a later advertisement without the option: which address is kept is not constrained
 	}
 	var diffs []string
 	chk := func(name string, got, want any) {
@@ -634,6 +687,26 @@ func c14LearnSweep(c *core.Ctx) {
 		}
 	}
 	rec(nil)
+	// two advertisements of the same router: the table follows the last one (options that disappear, a new source
+	// link-layer address, a different ethernet source without the option)
+	on := func(name string) raOpt {
+		for _, o := range opts {
+			if o.name == name {
+				return o
+			}
+		}
+		panic("no option " + name)
+	}
+	first := []raOpt{on("prefix/64"), on("mtu1500"), on("rdnss2"), on("dnssl"), on("slla")}
+	slla2 := raOpt{name: "slla'", raw: refnet.NDPOption(1, []byte{0x02, 0xaa, 0xbb, 0xcc, 0xdd, 0x77}), slla: []byte{0x02, 0xaa, 0xbb, 0xcc, 0xdd, 0x77}}
+	for _, second := range [][]raOpt{{}, {on("prefix/0")}, {on("mtu1280")}, {on("rdnss1")}, {on("route/0")}, {slla2}, {on("prefix/64"), on("mtu1500"), on("rdnss2"), on("dnssl"), slla2}} {
+		if !next() {
+			continue
+		}
+		for _, srcMAC := range [][]byte{env.RouterMAC, rtr2MAC} {
+			c14LearnPair(c, st, first, second, srcMAC)
+		}
+	}
 	// DNS search lists of every length class: one and two names whose encoding leaves 0..7 bytes of padding
 	for n := 1; n <= 16; n++ {
 		if !next() {
@@ -656,7 +729,7 @@ func c14LearnSweep(c *core.Ctx) {
 
 func c14Run(c *core.Ctx, args []string) {
 	c.Res.Level = "model_checking"
-	c.Res.Rule = "(a) confinement: every API history of length <=2 (thorough <=3) over {StartHunt(link-local / address-less / global / IPv4 target), StopHunt(link-local / address-less), Close} x RA delivery sequences {none, r1, r1 r1, r1 r2, r2 r1 r1 r1 r1}; stateless DFS over all schedules up to the deviation bound, then two spoof cycles, Close, two more cycles; linear-time monitor over emitted neighbour advertisements (override, hop limit 255, only to hunted MACs, only for learned routers, at most one in-flight batch after StopHunt, none one cycle after Close, IPv4 rejected, non link-local ignored, one loop per MAC). (b) router learning: every RA built from all option sequences of length <=2 (thorough <=3) over 16 options x flag set x lifetimes, DNS search lists of every padding length, and all 256 flag bytes; learned router compared with the reference decode. distinct = observation vectors (a) + distinct RA frames (b)"
+	c.Res.Rule = "(a) confinement: every API history of length <=2 (thorough <=3) over {StartHunt(link-local / address-less / global / IPv4 target), StopHunt(link-local / address-less), Close} x RA delivery sequences {none, r1, r1 r1, r1 r2, r2 r1 r1 r1 r1}; stateless DFS over all schedules up to the deviation bound, then two spoof cycles, Close, two more cycles; linear-time monitor over emitted neighbour advertisements (override, hop limit 255, only to hunted MACs, only for learned routers, at most one in-flight batch after StopHunt, none one cycle after Close, IPv4 rejected, non link-local ignored, one loop per MAC). (b) router learning: every RA built from all option sequences of length <=2 (thorough <=3) over 16 options x flag set x lifetimes, DNS search lists of every padding length, all 256 flag bytes, and pairs of advertisements of one router (the table follows the last one); learned router compared with the reference decode. distinct = observation vectors (a) + distinct RA frames (b)"
 	c.Res.Assumptions = []string{"one in-flight batch of advertisements per loop may leave after StopHunt returned", "each RA is delivered as the first of its group (the handler processes every 4th RA); at most one option of each single-valued kind per RA", "address-less targets are reached by unicast MAC + all-nodes destination (reported under C07, not here)"}
 	if c.Job == "learn" {
 		c14LearnSweep(c)
@@ -726,6 +799,11 @@ func init() {
 			if jsonUnmarshal(data, &r) == nil && r.Kind == "ra" {
 				f, _ := hex.DecodeString(r.Frame)
 				return c14Check(&c14State{}, f)
+			}
+			if r.Kind == "ra2" {
+				f, _ := hex.DecodeString(r.Frame)
+				p, _ := hex.DecodeString(r.Pre)
+				return c14CheckSeq(&c14State{}, [][]byte{p}, f)
 			}
 			return replayConf(data)
 		},
